@@ -16,6 +16,9 @@ use simcore::text::{strip_ansi, tokens_in, Blob};
 use std::collections::{BTreeMap, BTreeSet};
 use std::time::Instant;
 
+/// The wrapped command was killed by a signal: there is no status to pass through, any is accepted.
+pub const ANY_EXIT: i32 = -1;
+
 #[derive(Clone, Debug, Serialize, Deserialize, PartialEq)]
 pub enum ArgsRule {
     /// delta chooses the arguments: for less they must pass colours through
@@ -249,7 +252,7 @@ pub fn evaluate(s: &Scenario, f: &Fault, refi: &RefInfo, r: &RunResult) -> Vec<V
     let got = delivered(s, r);
     match f {
         Fault::None | Fault::Transparent { .. } | Fault::Stall | Fault::Sigint { .. } => {
-            if r.exit_code != Some(s.expect_exit) {
+            if s.expect_exit != ANY_EXIT && r.exit_code != Some(s.expect_exit) {
                 out.push(Violation::new("X1-exit-status", &sig("exit"), format!("exit status {:?}, expected {} (stderr: {})", r.exit_code, s.expect_exit, short(&r.stderr))));
             }
             if !s.stderr_may_be_nonempty && !r.stderr.is_empty() {
@@ -310,7 +313,7 @@ pub fn evaluate(s: &Scenario, f: &Fault, refi: &RefInfo, r: &RunResult) -> Vec<V
         }
         Fault::PagerQuit { .. } | Fault::StdoutQuit { .. } => {
             // confirmation runs: which write fails is the kernel's choice, the verdict must not depend on it
-            let ok_exit = r.exit_code == Some(0) || r.exit_code == Some(s.expect_exit);
+            let ok_exit = r.exit_code == Some(0) || r.exit_code == Some(s.expect_exit) || s.expect_exit == ANY_EXIT;
             if !ok_exit {
                 out.push(Violation::new("X5-quiet-quit", &sig("exit"), format!("consumer quit early: exit status {:?} (stderr: {})", r.exit_code, short(&r.stderr))));
             }
@@ -554,8 +557,12 @@ pub fn gen_scenario_full(seed: u64, idx: usize, big: bool, big_stderr: bool, hug
             ];
             let (bin, a) = if huge.is_some() { cmds[0] } else { *rng.pick(cmds) };
             sub = format!("{}-{}", bin, a[0]);
-            let st = *rng.pick(&[0, 0, 1, 2, 3, 128, 129, 255]);
-            expect_exit = st;
+            // exit statuses, and death by a signal (1000 + signal number: no status to pass on)
+            let st = *rng.pick(&[0, 0, 1, 2, 3, 128, 129, 255, 1009, 1015]);
+            expect_exit = if st >= 1000 { ANY_EXIT } else { st };
+            if st >= 1000 {
+                sub = format!("{}-killed", sub);
+            }
             spec.args.push(bin.into());
             for x in a {
                 spec.args.push((*x).into());
